@@ -449,6 +449,7 @@ class history {
       auto res = dbp->get(keyconv<K>::to(k));
       barrier();
       const bool hit = res.first.has_value();
+      if (Db::key_found(res) != hit) { fail("C01", "get/key_found", "key_found(result) disagrees with the result"); return std::nullopt; }
       if (hit != res.second.owns_lock()) {
         fail("C01", "get/lock-handle", "mutex_db get: lock ownership does not match hit/miss", json::object().set("key", vh::hex(k)).set("hit", hit));
         return std::nullopt;
@@ -460,6 +461,7 @@ class history {
     } else if constexpr (I::olc) {
       auto res = dbp->get(keyconv<K>::to(k));
       barrier();
+      if (Db::key_found(res) != res.has_value()) { fail("C01", "get/key_found", "key_found(result) disagrees with the result"); return std::nullopt; }
       if (!res.has_value()) return std::nullopt;
       *n = res->size();
       *p = *n == 0 ? nullptr : res->begin().get();
@@ -467,6 +469,7 @@ class history {
     } else {
       const auto res = dbp->get(keyconv<K>::to(k));
       barrier();
+      if (Db::key_found(res) != res.has_value()) { fail("C01", "get/key_found", "key_found(result) disagrees with the result"); return std::nullopt; }
       if (!res.has_value()) return std::nullopt;
       *p = res->data();
       *n = res->size();
@@ -613,6 +616,19 @@ class history {
                   json::object().set("allocator", static_cast<u64>(held_bytes)).set("reported", static_cast<u64>(reported)).set("after_drain", comp != nullptr));
     const auto g = dbp->get_growing_inode_counts();
     const auto s = dbp->get_shrinking_inode_counts();
+    {  // the per-class accessors must agree with the array accessors
+      using NT = unodb::node_type;
+      const std::uint64_t single[5] = {dbp->template get_node_count<NT::LEAF>(), dbp->template get_node_count<NT::I4>(), dbp->template get_node_count<NT::I16>(),
+                                       dbp->template get_node_count<NT::I48>(), dbp->template get_node_count<NT::I256>()};
+      const std::uint64_t sg[4] = {dbp->template get_growing_inode_count<NT::I4>(), dbp->template get_growing_inode_count<NT::I16>(),
+                                   dbp->template get_growing_inode_count<NT::I48>(), dbp->template get_growing_inode_count<NT::I256>()};
+      const std::uint64_t ss[4] = {dbp->template get_shrinking_inode_count<NT::I4>(), dbp->template get_shrinking_inode_count<NT::I16>(),
+                                   dbp->template get_shrinking_inode_count<NT::I48>(), dbp->template get_shrinking_inode_count<NT::I256>()};
+      for (std::size_t c = 0; c < 5; ++c)
+        if (single[c] != counts[c]) return fail("C10", std::string("node-count/single-accessor/") + cname(static_cast<int>(c)), "get_node_count<T>() disagrees with get_node_counts()", json::object().set("single", single[c]).set("array", counts[c]));
+      for (std::size_t c = 0; c < 4; ++c)
+        if (sg[c] != g[c] || ss[c] != s[c]) return fail("C10", std::string("growth-counter/single-accessor/") + cname(static_cast<int>(c) + 1), "get_growing/shrinking_inode_count<T>() disagrees with the array accessor", json::object().set("grow_single", sg[c]).set("grow_array", g[c]).set("shrink_single", ss[c]).set("shrink_array", s[c]));
+    }
     for (std::size_t c = 0; c < 4; ++c) {
       if (g[c] != exp_grow[c])
         return fail("C10", std::string("growth-counter/") + cname(static_cast<int>(c) + 1), "growth counter moved without (or did not move with) a matching structural event",
